@@ -12,6 +12,20 @@ def run(tier, rep, work):
     if not r.ok:
         raise C.Inconclusive("Lock.tla violates its invariants (specification defect):\n" + r.out[-2000:])
     rep.model_run("Lock 3 handles, 2 failing initialisations", r, "every interleaving of the open / close micro-steps of 3 handles incl. failing initialisations after the lock is held; OneOwner LockMatchesOwner NoLockLeftBehind Reopenable")
+    # extra (not the level claimed): Apalache discharges the inductive invariant IndInv of Lock.tla, i.e. the safety clauses for behaviours of any length
+    import subprocess, shutil
+    ap = work.sub("apalache")
+    for f in ("Lock.tla", "LockAp.tla"):
+        shutil.copyfile(os.path.join(d, f), os.path.join(ap, f))
+    outcomes = []
+    for args in (["--init=LInit", "--next=LNext", "--inv=IndInv", "--length=0"], ["--init=IndInv", "--next=LNext", "--inv=IndInv", "--length=1"]):
+        try:
+            pa = subprocess.run(["apalache-mc", "check", "--cinit=CInitAp"] + args + ["LockAp.tla"], cwd=ap, stdout=subprocess.PIPE, stderr=subprocess.STDOUT, text=True, timeout=400)
+            outcomes.append("NoError" if "The outcome is: NoError" in pa.stdout else "not discharged")
+        except Exception as ex:
+            outcomes.append("apalache could not run: %s" % type(ex).__name__)
+    rep.cov["apalache_inductive_invariant"] = dict(invariant="IndInv (TypeOK, OneOwner, LockMatchesOwner, NoLockLeftBehind) of Lock.tla, 3 handles", base_case=outcomes[0], inductive_step=outcomes[1])
+    shutil.rmtree(ap, ignore_errors=True)
     exe = C.build_harness()
     trace = work.path("lock.ndjson")
     p = C.run_harness(exe, ["lock", "-n", 300 if quick else 3000, "-conc", 40 if quick else 400, "-procs", "-seed", C.seed(), "-out", trace], timeout=3000)
